@@ -164,7 +164,8 @@ func C16(c *Ctx) {
 		{"PPPoE session (server)", "pkg/pppoe", "Server", "handlePADT", callTo("pkg/pppoe", "SessionManager", "RemoveSession"), "", []c16Res{pppoeIP}, nil, nil},
 		{"PPPoE session (server)", "pkg/pppoe", "Server", "handleLCPTermRequest", callTo("pkg/pppoe", "SessionManager", "RemoveSession"), "", []c16Res{pppoeIP}, nil, nil},
 		{"PPPoE session (idle sweep)", "pkg/pppoe", "SessionManager", "CleanupExpired", deleteFrom("SessionManager.sessions"), "", []c16Res{
-			{"MAC index", deleteFrom("SessionManager.macToSession"), nil},
+			// (the MAC index entry is removed only when it still points at this session: a newer session may own it)
+			{"MAC index", deleteFrom("SessionManager.macToSession"), func(a []string) bool { return atomHolds(a, "elem(SessionManager.macToSession)", "!=", "·") }},
 			{"client IP (owner's onExpire callback)", fieldFuncCall("SessionManager.onExpire"), nilField("SessionManager.onExpire")}}, nil, nil},
 		{"PPPoE session (teardown)", "pkg/pppoe", "SessionTeardown", "cleanup", callTo("pkg/pppoe", "SessionManager", "RemoveSession"), "", []c16Res{
 			{"eBPF map entry", fieldFuncCall("SessionTeardown.updateEBPFMaps"), nilField("SessionTeardown.updateEBPFMaps")},
